@@ -607,3 +607,353 @@ Proof.
   - rewrite Hsf, upd_length. exact Hlen.
   - congruence.
 Qed.
+
+(** HTPupdate: same key, new offset/length *)
+Lemma htpupdate_spec : forall st p off len, Inv st -> (p < length (m_slots st))%nat -> live (slot st p) = true ->
+  ((off = INVALID_OFFSET /\ len = INVALID_LENGTH) \/ (off = VALID_OFFSET /\ 1 <= len)) ->
+  let v := mkdd (d_tag (slot st p)) (d_ref (slot st p)) off len in
+  let st' := htpupdate st p off len in
+  Inv st' /\ m_slots st' = upd (m_slots st) p v /\ m_cache st' = m_cache st /\ m_maxref st' = m_maxref st.
+Proof.
+  intros st p off len I Hp Hl Hol v st'.
+  assert (Est : st' = write_slot st p v).
+  { unfold st', htpupdate, v. unfold INVALID_OFFSET, INVALID_LENGTH, VALID_OFFSET in Hol.
+    destruct (Z.eqb_spec len (-2)); [lia|]. destruct (Z.eqb_spec off (-2)); [lia|]. reflexivity. }
+  pose proof (write_slot_proj st p v) as (Ws & Wt & Wn & Wm & Wc & _).
+  rewrite Est. split; [|auto].
+  assert (Hlv : live v = true) by exact Hl.
+  pose proof (i_live st I _ (slot_in st p Hp) Hl) as (Hu & H0 & H1 & H108 & Hr & _).
+  apply (Inv_write st p v (m_tree st) (m_maxref st) (write_slot st p v)); auto.
+  - intros _. unfold dd_ok, v. cbn [d_tag d_ref d_off d_len]. repeat split; auto; try lia.
+  - unfold v. cbn [d_ref]. lia.
+  - apply (i_bits st I).
+  - intros b r. rewrite Hlv, Hl. unfold v. cbn [d_tag d_ref andb].
+    destruct ((BASETAG (d_tag (slot st p)) =? b) && (d_ref (slot st p) =? r)) eqn:C; auto.
+    apply andb_true_iff in C. destruct C as [Cb Cr]. apply Z.eqb_eq in Cb. apply Z.eqb_eq in Cr. subst b r.
+    apply (i_complete st I); auto.
+  - intros _ C. congruence.
+  - intros _. unfold v. cbn [d_ref]. destruct (i_maxref st I) as [_ Hm]. apply Hm; auto. apply slot_in; auto.
+  - pose proof (i_maxref st I). lia.
+  - repeat split; reflexivity.
+Qed.
+
+Lemma hd_step1 : forall p st, htpdelete_step p (Some st) 1 = Some (update_dd st p).
+Proof. reflexivity. Qed.
+Lemma hd_step2 : forall p st, htpdelete_step p (Some st) 2 =
+  match unregister_tag_ref (m_tree st) (d_tag (slot st p)) (d_ref (slot st p)) with
+  | None => None
+  | Some tr => let d := slot st p in Some (set_dd (set_tree st tr) p (mkdd DFTAG_NULL (d_ref d) (d_off d) (d_len d)))
+  end.
+Proof. reflexivity. Qed.
+Lemma hd_step3 : forall p st, htpdelete_step p (Some st) 3 = Some st.
+Proof. reflexivity. Qed.
+
+(** HTPdelete (steps in the generated order: unregister, then update the disk) *)
+Lemma htpdelete_spec : forall st p, Inv st -> (p < length (m_slots st))%nat -> live (slot st p) = true ->
+  exists st', htpdelete st p = Some st' /\ Inv st' /\
+    m_slots st' = upd (m_slots st) p (mkdd DFTAG_NULL (d_ref (slot st p)) (d_off (slot st p)) (d_len (slot st p))) /\
+    m_cache st' = m_cache st.
+Proof.
+  intros st p I Hp Hl. unfold htpdelete, HTPdelete_calls. cbn [fold_left htpdelete_step].
+  change (0 =? 1) with false. change (0 =? 2) with false. change (2 =? 1) with false. change (2 =? 2) with true.
+  change (1 =? 1) with true. change (3 =? 1) with false. change (3 =? 2) with false. cbv iota.
+  set (st0 := set_null st None).
+  assert (I0 : Inv st0) by (apply (Inv_transport st); auto; repeat split; reflexivity).
+  assert (Hs0 : forall q, slot st0 q = slot st q) by reflexivity.
+  pose proof (i_live st I _ (slot_in st p Hp) Hl) as (Hu & H0 & H1 & H108 & Hr & _).
+  destruct (unregister_spec (m_tree st0) (d_tag (slot st0 p)) (d_ref (slot st0 p)) p (i_bits st0 I0) ltac:(rewrite Hs0; lia)
+              (i_complete st0 I0 p Hp Hl)) as (tr & Eun & Hbits & Htr).
+  rewrite hd_step2, Eun, hd_step1, hd_step3.
+  set (v := mkdd DFTAG_NULL (d_ref (slot st p)) (d_off (slot st p)) (d_len (slot st p))).
+  cbv zeta. change (slot st0 p) with (slot st p) in *. fold v.
+  replace (update_dd (set_dd (set_tree st0 tr) p v) p) with (write_slot (set_tree st0 tr) p v) by reflexivity.
+  eexists. split; [reflexivity|].
+  pose proof (write_slot_proj (set_tree st0 tr) p v) as (Ws & Wt & Wn & Wm & Wc & _).
+  pose proof (write_slot_proj st0 p v) as (Ws0 & Wt0 & Wn0 & Wm0 & Wc0 & _).
+  split; [|split; [exact Ws|exact Wc]].
+  apply (Inv_write st0 p v tr (m_maxref st0) (write_slot (set_tree st0 tr) p v)); auto.
+  - intros C. discriminate.
+  - unfold v. cbn [d_ref]. lia.
+  - intros b r. rewrite Htr. change (live v) with false. cbn [andb]. change (slot st0 p) with (slot st p). rewrite Hl. cbn [andb]. reflexivity.
+  - intros C. discriminate.
+  - intros C. discriminate.
+  - intros C. discriminate.
+  - pose proof (i_maxref st0 I0). lia.
+  - unfold write_slot, update_dd, set_dd, set_slots, set_tree, disk_eq. cbn [m_cache]. destruct (m_cache st0); cbn; auto 10.
+Qed.
+
+(* ------------------------------------------------------------------------------------------ *)
+(** * The specification side: lookups in a key-distinct list *)
+
+Lemma key_eq_ekey : forall t r e, key_eq t r e = true <-> ekey e = (BASETAG t, r).
+Proof.
+  intros t r e. unfold key_eq, ekey. rewrite andb_true_iff, !Z.eqb_eq. split.
+  - intros [-> ->]. reflexivity.
+  - intros H. injection H as -> ->. auto.
+Qed.
+
+Lemma find_unique : forall l t r e, NoDup (map ekey l) -> In e l -> key_eq t r e = true ->
+  find (key_eq t r) l = Some e.
+Proof.
+  induction l as [|x l IH]; intros t r e Hnd Hin Hk; [contradiction|]. cbn [find].
+  cbn [map] in Hnd. apply NoDup_cons_iff in Hnd. destruct Hnd as [Hnot Hnd].
+  destruct (key_eq t r x) eqn:Ex.
+  - destruct Hin as [->|Hin]; auto. exfalso. apply Hnot.
+    apply key_eq_ekey in Ex. apply key_eq_ekey in Hk. rewrite Ex, <- Hk. apply in_map. exact Hin.
+  - destruct Hin as [->|Hin]; [congruence|]. apply IH; auto.
+Qed.
+
+Lemma perm_nodup_keys : forall a b, Permutation a b -> NoDup (map ekey a) -> NoDup (map ekey b).
+Proof. intros a b H. apply Permutation_NoDup. apply Permutation_map. exact H. Qed.
+
+Lemma in_abs : forall st e, In e (abs st) <->
+  exists p, (p < length (m_slots st))%nat /\ live (slot st p) = true /\ e = entry_of (slot st p).
+Proof.
+  intros st e. unfold abs. rewrite in_map_iff. split.
+  - intros (d & <- & Hd). apply filter_In in Hd. destruct Hd as [Hin Hl].
+    destruct (in_slot st d Hin) as (p & Hp & <-). exists p. auto.
+  - intros (p & Hp & Hl & ->). exists (slot st p). split; auto. apply filter_In. split; auto. apply slot_in. auto.
+Qed.
+
+Lemma lookup_agree : forall st s t r, Inv st -> Permutation (abs st) s ->
+  s_lookup s t r = match tree_da (m_tree st) (BASETAG t) r with
+                   | Some p => Some (entry_of (slot st p))
+                   | None => None
+                   end.
+Proof.
+  intros st s t r I Hp. unfold s_lookup.
+  pose proof (perm_nodup_keys _ _ Hp (Inv_nodup st I)) as Hnd.
+  destruct (tree_da (m_tree st) (BASETAG t) r) as [p|] eqn:E.
+  - destruct (i_sound st I _ _ _ E) as (Hlt & Hl & Hb & Hr).
+    apply find_unique; auto.
+    + apply (Permutation_in _ Hp). apply in_abs. exists p. auto.
+    + apply key_eq_ekey. unfold ekey, entry_of. cbn [e_tag e_ref]. rewrite Hb, Hr. reflexivity.
+  - destruct (find (key_eq t r) s) as [e|] eqn:Ef; auto. exfalso.
+    apply find_some in Ef. destruct Ef as [Hin Hk].
+    apply (Permutation_in _ (Permutation_sym Hp)) in Hin. apply in_abs in Hin. destruct Hin as (p & Hlt & Hl & ->).
+    apply key_eq_ekey in Hk. unfold ekey, entry_of in Hk. cbn [e_tag e_ref] in Hk. injection Hk as Hb Hr.
+    pose proof (i_complete st I p Hlt Hl) as C. rewrite Hb, Hr in C. congruence.
+Qed.
+
+(** entries other than the one with a given key, in a key-distinct list split as x :: R *)
+Lemma others_not_key : forall x R t r, NoDup (map ekey (x :: R)) -> key_eq t r x = true ->
+  forall y, In y R -> key_eq t r y = false.
+Proof.
+  intros x R t r Hnd Hk y Hy. cbn [map] in Hnd. apply NoDup_cons_iff in Hnd. destruct Hnd as [Hnot _].
+  destruct (key_eq t r y) eqn:Ey; auto. exfalso. apply Hnot.
+  apply key_eq_ekey in Hk. apply key_eq_ekey in Ey. rewrite Hk, <- Ey. apply in_map. exact Hy.
+Qed.
+
+Lemma remove_frame : forall s x R t r, Permutation s (x :: R) -> NoDup (map ekey s) -> key_eq t r x = true ->
+  Permutation (s_remove s t r) R.
+Proof.
+  intros s x R t r Hp Hnd Hk. unfold s_remove.
+  assert (Hf : Permutation (filter (fun e => negb (key_eq t r e)) s) (filter (fun e => negb (key_eq t r e)) (x :: R))).
+  { clear Hnd. induction Hp; cbn [filter]; auto.
+    - destruct (negb (key_eq t r x0)); auto.
+    - destruct (negb (key_eq t r x0)), (negb (key_eq t r y)); auto. apply perm_swap.
+    - eapply Permutation_trans; eauto. }
+  eapply Permutation_trans; [exact Hf|]. cbn [filter]. rewrite Hk. cbn [negb].
+  pose proof (others_not_key x R t r (perm_nodup_keys _ _ Hp Hnd) Hk) as Ho.
+  replace (filter (fun e => negb (key_eq t r e)) R) with R; auto.
+  clear -Ho. induction R as [|y R IH]; auto. cbn [filter]. rewrite (Ho y (or_introl eq_refl)). cbn [negb].
+  f_equal. apply IH. intros z Hz. apply Ho. right. exact Hz.
+Qed.
+
+Lemma setlen_frame : forall s x R t r l, Permutation s (x :: R) -> NoDup (map ekey s) -> key_eq t r x = true ->
+  Permutation (s_setlen s t r l) (mkentry (e_tag x) (e_ref x) l :: R).
+Proof.
+  intros s x R t r l Hp Hnd Hk. unfold s_setlen.
+  eapply Permutation_trans; [apply Permutation_map; exact Hp|]. cbn [map]. rewrite Hk. apply perm_skip.
+  pose proof (others_not_key x R t r (perm_nodup_keys _ _ Hp Hnd) Hk) as Ho.
+  replace (map (fun e => if key_eq t r e then mkentry (e_tag e) (e_ref e) l else e) R) with R; auto.
+  clear -Ho. induction R as [|y R IH]; auto. cbn [map]. rewrite (Ho y (or_introl eq_refl)).
+  f_equal. apply IH. intros z Hz. apply Ho. right. exact Hz.
+Qed.
+
+(* ------------------------------------------------------------------------------------------ *)
+(** * The H-level operations of the model *)
+
+Lemma hfind_exact : forall st t r dir, t <> 0 -> r <> 0 ->
+  hfind st t r 0 0 dir = tree_da (m_tree st) (BASETAG t) r.
+Proof.
+  intros st t r dir Ht Hr. unfold hfind. cbn [Z.eqb negb orb]. unfold htifind_dd, DFTAG_WILDCARD.
+  destruct (Z.eqb_spec t 0); [contradiction|]. destruct (Z.eqb_spec r 0); [contradiction|]. reflexivity.
+Qed.
+
+Lemma htpselect_tree : forall st t r, t <> 0 -> t <> 1 -> r <> 0 ->
+  htpselect st t r = tree_da (m_tree st) (BASETAG t) r.
+Proof.
+  intros st t r H0 H1 Hr. unfold htpselect, DFTAG_NULL, DFTAG_WILDCARD, DFREF_WILDCARD.
+  destruct (Z.eqb_spec t 1); [contradiction|]. destruct (Z.eqb_spec t 0); [contradiction|].
+  destruct (Z.eqb_spec r 0); [contradiction|]. reflexivity.
+Qed.
+
+Lemma select_live : forall st p, Inv st -> (p < length (m_slots st))%nat -> live (slot st p) = true ->
+  htpselect st (d_tag (slot st p)) (d_ref (slot st p)) = Some p.
+Proof.
+  intros st p I Hp Hl. pose proof (dd_ok_tag _ (i_live st I _ (slot_in st p Hp) Hl)) as (T0 & T1 & _ & R0).
+  rewrite htpselect_tree by auto. apply (i_complete st I); auto.
+Qed.
+
+Lemma maxref_bump_id : forall st p, Inv st -> (p < length (m_slots st))%nat -> live (slot st p) = true ->
+  (if m_maxref st <? d_ref (slot st p) then set_maxref st (d_ref (slot st p)) else st) = st.
+Proof.
+  intros st p I Hp Hl. destruct (i_maxref st I) as [_ Hm]. specialize (Hm _ (slot_in st p Hp) Hl).
+  destruct (Z.ltb_spec (m_maxref st) (d_ref (slot st p))); [lia|reflexivity].
+Qed.
+
+Lemma frame_at : forall st p, (p < length (m_slots st))%nat ->
+  exists R, Permutation (abs st) (optl (slot st p) ++ R) /\
+            forall st' v, m_slots st' = upd (m_slots st) p v -> Permutation (abs st') (optl v ++ R).
+Proof.
+  intros st p Hp. destruct (abs_upd_frame (m_slots st) p Hp) as (R & HR). exists R. split.
+  - pose proof (HR (slot st p)) as H. unfold slot in H at 1. rewrite upd_same in H. exact H.
+  - intros st' v Hs. unfold abs. rewrite Hs. apply HR.
+Qed.
+
+Lemma live_mk : forall t r o l, t <> 1 -> live (mkdd t r o l) = true.
+Proof. intros. unfold live, DFTAG_NULL. cbn [d_tag]. destruct (Z.eqb_spec t 1); [contradiction|reflexivity]. Qed.
+
+(** Hputelement of a new element *)
+Lemma hput_new : forall st t r l, Inv st -> uint16 t = true -> BASETAG t = t ->
+  t <> 0 -> t <> 1 -> t <> 108 -> 1 <= r <= MAX_REF -> 1 <= l ->
+  tree_da (m_tree st) (BASETAG t) r = None ->
+  exists st', hputelement st t r l = (st', ROk) /\ Inv st' /\ Permutation (abs st') (mkentry t r l :: abs st) /\
+              m_cache st' = m_cache st.
+Proof.
+  intros st t r l I Hu Hb T0 T1 T108 Hr Hl Hnone. unfold hputelement. cbv zeta. rewrite Hb. rewrite Hb in Hnone.
+  rewrite hfind_exact by lia. rewrite Hb, Hnone. rewrite htpselect_tree by lia. rewrite Hb, Hnone.
+  pose proof (htpcreate_spec st t r I Hu ltac:(rewrite Hb; auto) ltac:(rewrite Hb; auto) ltac:(rewrite Hb; auto) Hr) as Hc.
+  rewrite Hb, Hnone in Hc. destruct Hc as (st1 & p & Ec & I1 & Hp & Hslot & Habs & _ & _ & Hc1).
+  rewrite Ec.
+  assert (Hlive : live (slot st1 p) = true).
+  { rewrite Hslot. unfold live, created. cbn [d_tag]. destruct (Z.eqb_spec t DFTAG_NULL); [contradiction|reflexivity]. }
+  assert (Hbump : (if m_maxref st1 <? r then set_maxref st1 r else st1) = st1).
+  { pose proof (maxref_bump_id st1 p I1 Hp Hlive) as H. rewrite Hslot in H. exact H. }
+  rewrite Hbump.
+  destruct (htpupdate_spec st1 p VALID_OFFSET l I1 Hp Hlive ltac:(right; auto)) as (I2 & Hs2 & Hc2 & _).
+  eexists. split; [reflexivity|]. split; [exact I2|]. split; [|congruence].
+  destruct (frame_at st1 p Hp) as (R & H1 & H2). rewrite Hslot in *. cbn [created d_tag d_ref] in Hs2.
+  specialize (H2 _ _ Hs2). unfold optl in *.
+  rewrite Hlive in H1. rewrite live_mk in H2 by auto.
+  cbn [app] in *. unfold entry_of, created in *. cbn [d_tag d_ref d_len] in *.
+  eapply Permutation_trans; [exact H2|]. apply perm_skip.
+  apply (Permutation_cons_inv (a := mkentry t r INVALID_LENGTH)).
+  eapply Permutation_trans; [apply Permutation_sym; exact H1|exact Habs].
+Qed.
+
+(* ------------------------------------------------------------------------------------------ *)
+(** * Flushing and re-reading the DD blocks *)
+
+Lemma nth_skipn_gen : forall A (l : list A) a k d, nth k (skipn a l) d = nth (a + k) l d.
+Proof. induction l as [|x l IH]; intros [|a] k d; simpl; auto. destruct k; reflexivity. Qed.
+
+Lemma nth_firstn_lt : forall A (l : list A) n i d, (i < n)%nat -> nth i (firstn n l) d = nth i l d.
+Proof.
+  induction l as [|x l IH]; intros n i d H; [rewrite firstn_nil; reflexivity|].
+  destruct n; [lia|]. destruct i; cbn; auto. apply IH. lia.
+Qed.
+
+Lemma sync_image : forall n, (0 < n)%nat -> forall m k nblk dirty slots dhdr dslots,
+  length dirty = m -> length dhdr = m -> (k + m = nblk)%nat ->
+  length slots = (m * n)%nat -> length dslots = (m * n)%nat ->
+  (forall q, (q < m * n)%nat -> nth (q / n) dirty true = false -> nth q dslots None = Some (nth q slots nil_dd)) ->
+  (forall j, (j < m)%nat -> nth j dirty true = false -> nth j dhdr None = Some (negb (S (k + j) =? nblk)%nat)) ->
+  sync_blocks n k nblk dirty slots dhdr dslots = (image_hdrs k m nblk, map Some slots).
+Proof.
+  intros n Hn. induction m as [|m IH]; intros k nblk dirty slots dhdr dslots Hd Hh Hk Hs Hds Hcd Hch.
+  - destruct dirty; [|simpl in Hd; lia]. destruct slots; [|simpl in Hs; lia]. reflexivity.
+  - destruct dirty as [|dty dirty]; [simpl in Hd; lia|]. destruct dhdr as [|h dhdr]; [simpl in Hh; lia|].
+    cbn [sync_blocks].
+    rewrite (IH (S k) nblk dirty (skipn n slots) dhdr (skipn n dslots)); try (simpl in *; lia);
+      try (rewrite skipn_length; lia).
+    + unfold image_hdrs. change (seq k (S m)) with (k :: seq (S k) m). cbn [map].
+      assert (Hcat : map Some (firstn n slots) ++ map Some (skipn n slots) = map Some slots)
+        by (rewrite <- map_app, firstn_skipn; reflexivity).
+      destruct dty.
+      * rewrite Hcat. reflexivity.
+      * pose proof (Hch 0%nat ltac:(lia) eq_refl) as Hh0. cbn [nth] in Hh0. rewrite Hh0.
+        rewrite Nat.add_0_r. f_equal. rewrite <- Hcat. f_equal.
+        apply (nth_ext _ _ None None).
+        -- rewrite map_length, !firstn_length. lia.
+        -- intros i Hi. rewrite firstn_length in Hi.
+           assert (Hin : (i < n)%nat) by lia. rewrite nth_firstn_lt by auto.
+           rewrite Hcd; [|lia|rewrite Nat.div_small by auto; reflexivity].
+           rewrite (nth_indep _ None (Some nil_dd)) by (rewrite map_length, firstn_length; lia).
+           rewrite map_nth. rewrite nth_firstn_lt by auto. reflexivity.
+    + intros q Hq Hc. rewrite !nth_skipn_gen. apply Hcd; [lia|].
+      replace ((n + q) / n)%nat with (S (q / n)).
+      * exact Hc.
+      * replace (n + q)%nat with (q + 1 * n)%nat by lia. rewrite Nat.div_add by lia. lia.
+    + intros j Hj Hc. replace (S k + j)%nat with (k + S j)%nat by lia. apply (Hch (S j)); [lia|exact Hc].
+Qed.
+
+Lemma all_clean_image : forall st, (0 < nddsn st)%nat -> disk_ok st ->
+  (forall k, (k < length (m_bdirty st))%nat -> nth k (m_bdirty st) true = false) ->
+  m_dhdr st = image_hdrs 0 (length (m_bdirty st)) (length (m_bdirty st)) /\ m_dslots st = map Some (m_slots st).
+Proof.
+  intros st Hn [K1 K2 K3 K4 K5 K6 K7 K8] Hclean. split.
+  - apply (nth_ext _ _ None None).
+    + unfold image_hdrs. rewrite map_length, seq_length. exact K3.
+    + intros k Hk. rewrite K3 in Hk. rewrite K6 by auto. unfold image_hdrs.
+      set (f := fun k0 => Some (negb (S k0 =? length (m_bdirty st))%nat)).
+      rewrite (nth_indep _ None (f 0%nat)) by (rewrite map_length, seq_length; auto).
+      rewrite (map_nth f). rewrite seq_nth by auto. reflexivity.
+  - apply (nth_ext _ _ None None).
+    + rewrite map_length. lia.
+    + intros q Hq. rewrite K4 in Hq. rewrite K5; [| lia | apply Hclean; apply div_lt_blocks; auto].
+      rewrite (nth_indep _ None (Some nil_dd)) by (rewrite map_length; lia). rewrite map_nth. reflexivity.
+Qed.
+
+Lemma Inv_new_disk : forall st st', m_ndds st' = m_ndds st -> m_slots st' = m_slots st ->
+  m_tree st' = m_tree st -> m_maxref st' = m_maxref st -> disk_ok st' -> Inv st -> Inv st'.
+Proof.
+  intros st st' E1 E2 Et Em Hd I.
+  assert (Hn : nddsn st' = nddsn st) by (unfold nddsn; rewrite E1; reflexivity).
+  assert (Hs : forall p, slot st' p = slot st p) by (intros; unfold slot; rewrite E2; reflexivity).
+  destruct I as [Ind Ilive Irefs Ibits Isound Icomp Imax Idisk].
+  constructor; rewrite ?Hn, ?Et, ?Em, ?E2; auto.
+  - intros b r p H. rewrite Hs. auto.
+  - intros p Hp Hl. rewrite Hs in *. auto.
+Qed.
+
+Definition all_clean (st : mst) : Prop :=
+  forall k, (k < length (m_bdirty st))%nat -> nth k (m_bdirty st) true = false.
+
+Lemma nth_map_false : forall (l : list bool) k, (k < length l)%nat -> nth k (map (fun _ => false) l) true = false.
+Proof. induction l as [|x l IH]; intros [|k] H; simpl in *; try lia; auto. apply IH. lia. Qed.
+
+Lemma hisync_spec : forall st, Inv st ->
+  Inv (hisync st) /\ m_slots (hisync st) = m_slots st /\ m_tree (hisync st) = m_tree st /\
+  m_maxref (hisync st) = m_maxref st /\ m_cache (hisync st) = m_cache st /\ m_ndds (hisync st) = m_ndds st /\
+  all_clean (hisync st).
+Proof.
+  intros st I. pose proof (i_nd st I) as Hn. pose proof (i_disk st I) as D. destruct D as [K1 K2 K3 K4 K5 K6 K7 K8].
+  unfold hisync. destruct (m_cache st && m_fdirty st) eqn:Ec.
+  - unfold htpsync.
+    rewrite (sync_image (nddsn st) Hn (length (m_bdirty st)) 0 (length (m_bdirty st)) (m_bdirty st) (m_slots st)
+               (m_dhdr st) (m_dslots st)); auto.
+    + cbn [m_ndds m_slots m_bdirty m_dhdr m_dslots m_tree m_null m_maxref m_cache].
+      set (st1 := mkst _ _ _ _ _ _ _ _ _ _).
+      assert (Hclean : all_clean st1).
+      { intros k Hk. unfold st1 in *. cbn [m_bdirty] in *. rewrite map_length in Hk. apply nth_map_false. auto. }
+      split; [|repeat split; auto].
+      apply (Inv_new_disk st); auto.
+      constructor.
+      all: unfold st1, nddsn; cbn [m_ndds m_slots m_bdirty m_dhdr m_dslots m_cache m_fdirty]; fold (nddsn st);
+        rewrite ?map_length.
+      * exact K1.
+      * exact K2.
+      * unfold image_hdrs. rewrite map_length, seq_length. reflexivity.
+      * lia.
+      * intros q Hq _. rewrite (nth_indep _ None (Some nil_dd)) by (rewrite map_length; lia). rewrite map_nth. reflexivity.
+      * intros k Hk _. unfold image_hdrs. set (f := fun k0 => Some (negb (S k0 =? length (m_bdirty st))%nat)).
+        rewrite (nth_indep _ None (f 0%nat)) by (rewrite map_length, seq_length; auto).
+        rewrite (map_nth f). rewrite seq_nth by auto. reflexivity.
+      * intros _ k Hk. apply nth_map_false. auto.
+      * intros _ k Hk. apply nth_map_false. auto.
+    + intros q Hq. apply K5. lia.
+  - split; [exact I|]. repeat split; auto. intros k Hk.
+    apply andb_false_iff in Ec. destruct Ec as [Ec|Ec]; [apply K7|apply K8]; auto.
+Qed.
